@@ -24,6 +24,7 @@ Act(e) ==
                            ELSE UNCHANGED svars
     [] e.ev = "CRecv" -> IF Msg(e.bytes) \in s2c THEN ClientRecv(Msg(e.bytes)) ELSE UNCHANGED svars
     [] e.ev = "Disp"  -> UNCHANGED svars
+    [] e.ev = "Helper" -> UNCHANGED svars
 
 Bad(e) ==
   CASE e.ev = "Send" ->
@@ -45,6 +46,9 @@ Bad(e) ==
          \cup T(e.dtype \in Types /\ e.getcmd # CmdOf(e.bytes), "C10.command_honest")
          \cup T(e.dtype \in Types /\ ~e.gennil, "C10.response_generates")
          \cup T(Cardinality({ o \in outstanding : Matches(o, Msg(e.bytes)) }) # 1, "C10.pairing.unmatched")
+    [] e.ev = "Helper" ->
+         \* a packet-building helper promises a type: the octets must carry that type's command id and dispatch to it
+         T(CmdOf(e.bytes) \notin CmdsOf(e.want) \/ e.dtype # e.want, "C10.helper")
     [] e.ev = "Disp" ->
          T(e.res = "nilnil", "C10.dispatch.nilnil")
          \cup T(e.res # "nilnil" /\ e.res # Dispatch(e.pkg, e.cmd), "C10.dispatch")
